@@ -32,7 +32,7 @@ CHECKS = {
 ALL = ["C%02d"%i for i in range(1,19)]
 m = {
  "version": 1,
- "setup_cmd": "cd /verif/harness && CARGO_NET_OFFLINE=true cargo build --release --offline",
+ "setup_cmd": "cd /verif/harness && CARGO_NET_OFFLINE=true cargo build --release --offline && ../target/release/t2n-verif setup",
  "hooks": {
    "guard": "cargo feature \"verif\" of the text2num crate (off by default)",
    "enable": "the harness depends on text2num (path /repo via harness/repo) with features=[\"verif\"]: re-export of the private tokenizer, and an optional yield hook at the entry of every mutating DigitString operation (used by C14's scheduler)",
